@@ -61,7 +61,7 @@ let () =
     while true do
       let line = input_line stdin in
       match split_on ' ' line with
-      | kind :: hs when kind = "E" || kind = "F" ->
+      | kind :: hs when kind = "E" || kind = "F" || kind = "G" ->
         let src = zl_of_hex (String.concat "" hs) in
         (match parse_bytes src with
          | None -> print_string ("R " ^ kind ^ " OOB\n")
@@ -74,6 +74,7 @@ let () =
            print_string ("R " ^ kind ^ " " ^ dump e ^ "|" ^ hex_of_zl printed ^ "|" ^ second
                          ^ "|" ^ token_dump src ^ "|" ^ token_dump printed ^ "\n"));
         if kind = "F" then print_string "S F RT\n"
+        else if kind = "G" then print_string "S G RT\n"
         else begin
           match tokenize fx tokenizer_ops (cstring src) with
           | Ok ts ->
